@@ -795,7 +795,7 @@ Definition demo_ops : list op :=
     Annotate (mkab (Some 5) (Some (Store.BComplex 3 [Store.BAnn (ById 4) None; Store.BAnn (ById 0) None])) []) ].
 
 Lemma demo_roundtrip :
-  known_class (run demo_ops) = 0 /\ store_ok (run demo_ops) = true
+  known_class (run demo_ops) = 0 /\ hyps_ok (run demo_ops) = true
   /\ sx_of_loaded (roundtrip (run demo_ops)) = roundtrip_spec (run demo_ops)
   /\ length (live_items (anns (run demo_ops))) = 5.
 Proof. vm_compute. repeat split. Qed.
